@@ -40,7 +40,9 @@ type Case struct {
 	Params json.RawMessage `json:"params,omitempty"`
 }
 
-func (c Case) Rng() *rand.Rand { return rand.New(rand.NewPCG(c.Seed, 0x9e3779b97f4a7c15^uint64(c.Index))) }
+func (c Case) Rng() *rand.Rand {
+	return rand.New(rand.NewPCG(c.Seed, 0x9e3779b97f4a7c15^uint64(c.Index)))
+}
 
 func (c Case) P(v any) {
 	if len(c.Params) > 0 {
@@ -213,7 +215,7 @@ type workerResult struct {
 
 // RunWorker executes the cases with index%n == i and index >= from.
 func RunWorker(chk *Check, seed uint64, tier string, i, n, from int, outPath, journalPath string) int {
-	cases := chk.Cases(seed, tier)
+	cases := limitCases(chk.Cases(seed, tier))
 	for k := range cases {
 		cases[k].Index = k
 	}
@@ -293,6 +295,16 @@ func RunWorker(chk *Check, seed uint64, tier string, i, n, from int, outPath, jo
 	return 0
 }
 
+// limitCases honours VERIF_LIMIT (development aid: only the first N cases).
+func limitCases(cs []Case) []Case {
+	if v := os.Getenv("VERIF_LIMIT"); v != "" {
+		if n, err := strconv.Atoi(v); err == nil && n < len(cs) {
+			return cs[:n]
+		}
+	}
+	return cs
+}
+
 func firstLine(s string) string {
 	if i := strings.IndexByte(s, '\n'); i >= 0 {
 		return s[:i]
@@ -316,6 +328,17 @@ func panicSig(stack string) string {
 }
 
 func trimDump(s string) string {
+	// keep the goroutines that involve the system under test first
+	gs := strings.Split(s, "\n\n")
+	var rel, other []string
+	for _, g := range gs {
+		if strings.Contains(g, "sourcenetwork/") && !strings.Contains(g, "handleMessages") && !strings.Contains(g, "core.RunWorker") {
+			rel = append(rel, g)
+		} else {
+			other = append(other, g)
+		}
+	}
+	s = strings.Join(append(rel, other...), "\n\n")
 	if len(s) > 60000 {
 		return s[:60000] + "\n...[truncated]"
 	}
@@ -380,7 +403,7 @@ func Supervise(chk *Check, seed uint64, tier string, self string) int {
 	_ = os.RemoveAll(dir)
 	_ = os.MkdirAll(dir, 0o755)
 	sup := &Supervisor{Chk: chk, Seed: seed, Tier: tier, Dir: dir, Self: self, Start: start}
-	cases := chk.Cases(seed, tier)
+	cases := limitCases(chk.Cases(seed, tier))
 	nw := chk.Workers
 	if nw == 0 {
 		nw = runtime.NumCPU()
@@ -596,6 +619,11 @@ func (s *Supervisor) finish(m *Rec, inconclusive []string) int {
 	}
 	replayDir := filepath.Join(VerifDir(), "replay")
 	_ = os.MkdirAll(replayDir, 0o755)
+	if old, _ := filepath.Glob(filepath.Join(replayDir, fmt.Sprintf("%s-%s-*.json", chk.ID, s.Tier))); len(old) > 0 {
+		for _, o := range old {
+			_ = os.Remove(o)
+		}
+	}
 	printedKnown := map[string]bool{}
 	unknownBySig := map[string][]Violation{}
 	var sigOrder []string
